@@ -182,6 +182,20 @@ def owner_kind(t: Term) -> Optional[str]:
     return None
 
 
+def graph_of_node(t: Term) -> Optional[Term]:
+    """The graph term G when t denotes a node of G (G.nodes[i], an element of an iteration over G.nodes)."""
+    while t[0] == "old":
+        t = t[1]
+    if t[0] == "idx" and t[1][0] == "attr" and t[1][2] == "nodes":
+        return t[1][1]
+    if t[0] in ("iter", "iterproj") and t[1][0] == "attr" and t[1][2] == "nodes":
+        return t[1][1]
+    return None
+
+
+_GRAPH_CTX: List[Optional[Term]] = [None]
+
+
 def reads_field(t: Term, fields, owner: Optional[str] = None) -> bool:
     """Does the value of term t depend on a read of one of the attribute names in `fields`?
     owner: class of the object that was written; reads on objects of another known class do not count
@@ -192,6 +206,12 @@ def reads_field(t: Term, fields, owner: Optional[str] = None) -> bool:
     if tag == "attr":
         if t[2] in fields:
             ok = owner_kind(t[1])
+            g_w = _GRAPH_CTX[0]
+            if g_w is not None and ok == "node":
+                g_r = graph_of_node(t[1])
+                if g_r is not None and g_r != g_w and g_r[0] == "new" or (g_r is not None and g_w[0] == "new" and g_r != g_w):
+                    # the store went to a node of another graph object (a freshly built query graph vs the model's graph)
+                    return reads_field(t[1], fields, owner)
             if owner == "!heap":
                 if ok != "heap":
                     return True
@@ -699,6 +719,9 @@ class Walker:
                 env[p] = ("self",)
             else:
                 env[p] = ("param", p)
+        for va in (self.entry.node.args.vararg, self.entry.node.args.kwarg):
+            if va is not None:
+                env[va.arg] = ("param", va.arg)
         # API extensions: a parameter that the documented signature (spec/api_signatures.json) does not have and that
         # carries a constant default is read at that default - the properties speak about the documented call patterns;
         # what a new switch does when it is turned on is new behaviour outside them
@@ -762,6 +785,15 @@ class Walker:
         return None
 
     @staticmethod
+    def stored_graph(target: Term) -> Optional[Term]:
+        t = target
+        while t[0] == "idx":
+            t = t[1]
+        if t[0] == "attr":
+            return graph_of_node(t[1])
+        return None
+
+    @staticmethod
     def stored_field(target: Term) -> Optional[str]:
         t = target
         while t[0] == "idx":
@@ -777,7 +809,26 @@ class Walker:
             stmt=self.stmt, **kw,
         )
         self.events.append(ev)
+        lists = self.__dict__.get("lists")
+        if lists:
+            # a tracked local list that is handed to unknown code, or stored, may be changed behind the walker's back
+            if kind == "call" and kw.get("name") not in ("list-literal", "append", "builtin.tuple", "builtin.len", "<inline>"):
+                for a in tuple(kw.get("args") or ()) + tuple(v for _, v in (kw.get("kwargs") or ())):
+                    if a[0] == "alloc" and a[1] == "list" and a[-1] in lists:
+                        lists[a[-1]] = None
+            elif kind == "store":
+                v = kw.get("value")
+                if isinstance(v, tuple) and v and v[0] == "alloc" and v[1] == "list" and v[-1] in lists:
+                    lists[v[-1]] = None
         return ev
+
+    def list_items(self, t: Term):
+        """Contents of a list built in this walk by a literal and straight-line appends (None when unknown)."""
+        if t[0] == "alloc" and t[1] == "list":
+            got = self.__dict__.get("lists", {}).get(t[-1])
+            if got is not None:
+                return tuple(got[0])
+        return None
 
     # -- statements ----------------------------------------------------------
     def block(self, stmts: List[ast.stmt], env: Dict[str, Term]) -> bool:
@@ -947,10 +998,11 @@ class Walker:
                 else:
                     pre.append(None)
             for i, e in enumerate(t.elts):
+                items = self.list_items(val)
                 if val[0] in ("tuple", "list") and len(val[1]) == len(t.elts):
                     v = val[1][i]
-                elif val[0] == "alloc" and val[1] == "list" and len(val[2]) == len(t.elts):
-                    v = val[2][i]
+                elif items is not None and len(items) == len(t.elts):
+                    v = items[i]
                 else:
                     v = ("idx", val, ("const", i))
                 if pre[i] is not None:
@@ -962,8 +1014,12 @@ class Walker:
         elif isinstance(t, (ast.Attribute, ast.Subscript)):
             tgt = self.ev(t, env)
             self.emit("store", stmt, target=tgt, value=val)
-            self.invalidate({self.stored_field(tgt)} - {None}, env, elements_only=tgt[0] == "idx",
-                            owner=self.stored_owner(tgt))
+            _GRAPH_CTX[0] = self.stored_graph(tgt)
+            try:
+                self.invalidate({self.stored_field(tgt)} - {None}, env, elements_only=tgt[0] == "idx",
+                                owner=self.stored_owner(tgt))
+            finally:
+                _GRAPH_CTX[0] = None
             if val[0] == "new" and tgt[0] == "attr" and tgt[1] == ("self",):
                 # `g = Graph(...); self.graph = g`: from here on the local and the field name the same object
                 for n, v in list(env.items()):
@@ -1048,7 +1104,9 @@ class Walker:
         li.first_seq = self._seq + 1
         return li
 
-    def _loop_body(self, li: LoopInfo, body: List[ast.stmt], env: Dict[str, Term], extra: List[str]):
+    def _loop_body(self, li: LoopInfo, body: List[ast.stmt], env: Dict[str, Term], extra: List[str],
+                   recv_env: Dict[str, Term] = None):
+        recv_env = recv_env if recv_env is not None else env
         mf = mutated_fields(body, self.repo)
         rb = rebound_fields(body, self.repo)
         # fields that are only written INTO keep references to their containers valid (`costs = h.cost`)
@@ -1056,6 +1114,7 @@ class Walker:
         # rebinding stores whose receiver is not a queue object (`node.cost = v`) cannot rebind a queue's arrays
         direct_nonheap = set()
         direct_other = set()
+        fresh_graph: Dict[str, set] = {}  # field -> graphs (all `new` objects of this call) whose nodes receive the store
         for st in body:
             for n in ast.walk(st):
                 tg = []
@@ -1069,10 +1128,20 @@ class Walker:
                             r = x.value
                             is_heap = isinstance(r, ast.Name) and r.id in env and owner_kind(env[r.id]) == "heap"
                             (direct_other if is_heap else direct_nonheap).add(x.attr)
+                            g = graph_of_node(recv_env[r.id]) if isinstance(r, ast.Name) and r.id in recv_env else None
+                            fresh_graph.setdefault(x.attr, set()).add(g if g is not None and g[0] == "new" else None)
         via_calls = rb - _direct_rebinds(body)
         whole = {f: c for f, c in mf.items() if f in rb}
         nonheap_only = {f: c for f, c in whole.items() if f in direct_nonheap and f not in direct_other and f not in via_calls}
-        self.invalidate(nonheap_only, env, owner="!heap")
+        # ... and a store into a node of a graph object built in this call cannot reach the nodes of another graph
+        for f, c in nonheap_only.items():
+            gs = fresh_graph.get(f, {None})
+            if None not in gs and len(gs) == 1:
+                _GRAPH_CTX[0] = next(iter(gs))
+            try:
+                self.invalidate({f: c}, env, owner="!heap")
+            finally:
+                _GRAPH_CTX[0] = None
         self.invalidate({f: c for f, c in whole.items() if f not in nonheap_only}, env)
         names = [n for n in assigned_names(body) if n not in extra]
         init = {n: env.get(n, ("undef",)) for n in names}
@@ -1126,6 +1195,19 @@ class Walker:
                 if self.block(s.body, env):
                     return True
             return None
+        if isinstance(s.iter, ast.Name) and isinstance(s.target, ast.Name) and not s.orelse \
+                and env.get(s.iter.id, ("?",))[0] == "tuple" and 1 <= len(env[s.iter.id][1]) <= 4 \
+                and not any(x[0] == "star" for x in env[s.iter.id][1]) \
+                and not any(isinstance(x, (ast.Break, ast.Continue, ast.Starred)) for x in ast.walk(s)):
+            # the same over a tuple this walk knows element by element (e.g. the `*args` of an inlined helper)
+            for k, item in enumerate(env[s.iter.id][1]):
+                tmp = f"${s.iter.id}{k}"
+                env[tmp] = item
+                self.statement(ast.copy_location(ast.Assign(targets=[s.target], value=ast.Name(id=tmp, ctx=ast.Load()),
+                                                            lineno=s.lineno), s), env)
+                if self.block(s.body, env):
+                    return True
+            return None
         n_ev = len(self.events)
         dom = self.ev(s.iter, env)
         sliced = self._slice_domain(dom)
@@ -1144,7 +1226,10 @@ class Walker:
         li = self._enter_loop("for", s, env)
         li.domain = dom
         tnames = assigned_names([ast.Assign(targets=[s.target], value=ast.Constant(0))])
-        names, init = self._loop_body(li, s.body, env, [])
+        recv_env = dict(env)
+        if isinstance(s.target, ast.Name):
+            recv_env[s.target.id] = elem_of(dom, li.lid)
+        names, init = self._loop_body(li, s.body, env, [], recv_env=recv_env)
         # loop targets
         self.loopstack.append(li.lid)
 
@@ -1385,6 +1470,8 @@ class Walker:
             self._site += 1
             t = ("alloc", "list", tuple(self.ev(x, env) for x in e.elts), (), self._site)
             self.emit("call", e, target=("builtin", "list"), value=t, name="list-literal", args=t[2])
+            if not any(x[0] == "star" for x in t[2]):
+                self.__dict__.setdefault("lists", {})[self._site] = (list(t[2]), tuple(self.loopstack), tuple(self.guards))
             return t
         if isinstance(e, ast.Starred):
             return ("star", self.ev(e.value, env))
@@ -1517,6 +1604,9 @@ class Walker:
                 and args[0][1] in ("numpy.zeros", "numpy.empty", "numpy.ones") and args[0][2] \
                 and args[0][2][0][0] not in ("tuple", "list"):
             return args[0][2][0]
+        # tuple(xs) of a list whose contents this walk knows
+        if fn == ("builtin", "tuple") and len(args) == 1 and not kwargs and self.list_items(args[0]) is not None:
+            return ("tuple", self.list_items(args[0]))
         # max/min idioms
         fname = None
         if fn[0] == "mod":
@@ -1560,6 +1650,14 @@ class Walker:
                     return self.inline_call(fi, recv, args, kwargs, e)
             t = ("call", fn, args, kwargs)
             self.emit("call", e, target=fn, value=t, name=meth, args=args, kwargs=kwargs)
+            if recv[0] == "alloc" and recv[1] == "list" and recv[-1] in self.__dict__.get("lists", {}) \
+                    and (meth in CONTAINER_MUTATORS or meth == "__setitem__"):
+                ent = self.lists[recv[-1]]
+                if ent is not None and meth == "append" and len(args) == 1 and not kwargs \
+                        and ent[1] == tuple(self.loopstack) and ent[2] == tuple(self.guards):
+                    ent[0].append(args[0])
+                else:
+                    self.lists[recv[-1]] = None
             if rcls == "Heap" and meth in ("update", "insert"):
                 self.invalidate(HEAP_ARRAYS, env, cause="call:" + meth, owner="heap", elements_only=True)
                 self.invalidate({"last"}, env, cause="call:" + meth, owner="heap")
@@ -1632,6 +1730,9 @@ class Walker:
             plist = plist[1:]
         for p, v in zip(plist, args):
             env[p] = v
+        if a.vararg is not None:
+            npos = len(pos) - (1 if recv is not None and pos and pos[0].arg == "self" else 0)
+            env[a.vararg.arg] = ("tuple", tuple(args[npos:]))
         for k, v in kwargs:
             if k in plist:
                 env[k] = v
@@ -1695,6 +1796,75 @@ class Walker:
 
 def walk_function(repo: Repo, fi: FunctionInfo, self_class: str = None, inline=None) -> Walker:
     return Walker(repo, fi, self_class=self_class, inline=inline)
+
+
+def derived_phis(w) -> Dict[Term, Term]:
+    """Loop-carried variables that are a function of another carried variable of the same loop, by induction:
+    v starts as f(u0) and ends every iteration as f(u_end) for the same f  =>  at the loop head v = f(u).
+    (`left = self.left_son(i)` before a loop whose body ends with `i = j; left = self.left_son(i)`.)"""
+    out: Dict[Term, Term] = {}
+    HOLE = ("free", "<hole>")
+
+    def plug(t, what):
+        if t == what:
+            return HOLE
+        if isinstance(t, tuple):
+            return tuple(plug(x, what) for x in t)
+        return t
+
+    for li in w.loops.values():
+        for v, (iv, ev) in li.carried.items():
+            if iv[0] in ("undef", "const", "param"):
+                continue
+            for u, (iu, eu) in li.carried.items():
+                if u == v or iu[0] == "undef":
+                    continue
+                fi, fe = plug(iv, iu), plug(ev, eu)
+                if fi == fe and any(x == HOLE for x in subterms(fi)) and fi != HOLE:
+                    phi_u = ("phi", li.lid, u)
+                    if not any(x == ("phi", li.lid, v) for x in subterms(fi)):
+                        out[("phi", li.lid, v)] = plug_back(fi, HOLE, phi_u)
+                        break
+    return out
+
+
+def plug_back(t, hole, what):
+    if t == hole:
+        return what
+    if isinstance(t, tuple):
+        return tuple(plug_back(x, hole, what) for x in t)
+    return t
+
+
+def substitute_view(w, mapping: Dict[Term, Term]):
+    """A read-only view of a walk whose events / loops have `mapping` applied to every term."""
+    import dataclasses
+    import types
+    if not mapping:
+        return w
+
+    def R(t):
+        if t is None:
+            return None
+        if t in mapping:
+            return R(mapping[t])
+        if isinstance(t, tuple):
+            return tuple(R(x) if isinstance(x, tuple) else x for x in t)
+        return t
+
+    view = types.SimpleNamespace(**{k: getattr(w, k) for k in ("entry", "repo", "guard_src", "old_cause", "inlined", "binop")
+                                    if hasattr(w, k)})
+    view.events = [dataclasses.replace(e, target=R(e.target), value=R(e.value), args=tuple(R(a) for a in e.args),
+                                       kwargs=tuple((k, R(v)) for k, v in e.kwargs),
+                                       guards=tuple((R(g), pol) for g, pol in e.guards)) for e in w.events]
+    view.loops = {}
+    for lid, li in w.loops.items():
+        view.loops[lid] = dataclasses.replace(li, cond=R(li.cond), domain=R(li.domain),
+                                              guards=tuple((R(g), pol) for g, pol in li.guards),
+                                              carried={n: (R(a), R(b)) for n, (a, b) in li.carried.items()})
+    for g, src in list(w.guard_src.items()):
+        view.guard_src.setdefault(R(g), src)
+    return view
 
 
 def is_log_call(ev) -> bool:
